@@ -13,6 +13,7 @@ def check(chk):
     chk.does_not_decide = 'server behaviour; interleavings with other responses'
     chk.rule('C19.prepare', 'PrepareMessage(query=<statement>.query_string, keyspace=<statement>.keyspace if uses_keyspace_flag else None), submitted as _reprepare(..., host, connection, pool)')
     chk.rule('C19.terminal', 'unknown id without a statement, keyspace mismatch and id mismatch each set the final exception and return (nothing further is sent)')
+    chk.rule('C19.carry', 'every PreparedStatement built from a PREPARED result records the keyspace, query text and metadata it was prepared with - also the early arm for statements without bind markers')
     chk.rule('C19.resend', 'after a successful re-prepare the original request goes to the same host (_query(host)), falling back to the plan only if that fails')
     cl = chk.repo.mod(CLUSTER)
     sr = cl.func('ResponseFuture._set_result')
@@ -94,3 +95,26 @@ def check(chk):
     s = src(rp)
     chk.judge('partial(self.session.submit, self._execute_after_prepare, host, connection, pool)' in s and 'self._query(host, prepare_message, cb=cb)' in s, 'C19.resend', rp,
               '_reprepare sends PREPARE to the same host with _execute_after_prepare as its callback', '_reprepare changed')
+
+    # ---- what a re-prepare needs is recorded by every arm of PreparedStatement.from_message
+    qm = chk.repo.mod('cassandra/query.py')
+    fm = qm.func('PreparedStatement.from_message')
+    init = qm.func('PreparedStatement.__init__')
+    iparams = [a.arg for a in init.args.args][1:]
+    fparams = [a.arg for a in fm.args.args][1:]
+    ctor = [n for n in body_walk(fm) if isinstance(n, ast.Call) and src(n.func) in ('PreparedStatement', 'cls')]
+    if len(ctor) < 2:
+        raise AnalysisError('PreparedStatement.from_message: constructor calls not found')
+    carried = {'query_id': 'query_id', 'query_string': 'query', 'keyspace': 'prepared_keyspace', 'protocol_version': 'protocol_version',
+               'result_metadata': 'result_metadata', 'result_metadata_id': 'result_metadata_id', 'column_encryption_policy': 'column_encryption_policy'}
+    for c in ctor:
+        got = {}
+        for i, a in enumerate(c.args):
+            if i < len(iparams):
+                got[iparams[i]] = src(a)
+        for k in c.keywords:
+            if k.arg:
+                got[k.arg] = src(k.value)
+        bad = sorted('%s=%s (want %s)' % (p_, got.get(p_), w) for p_, w in carried.items() if p_ in iparams and w in fparams and got.get(p_) != w)
+        chk.judge(not bad, 'C19.carry', c, 'from_message -> PreparedStatement(...): keyspace / query / ids / metadata passed through',
+                  'this arm builds the statement with %s: a later re-prepare after UNPREPARED is sent without what the statement was prepared with' % '; '.join(bad))
